@@ -46,7 +46,7 @@ TIE = {'persist.serialize_value (repaired, names resolved at save time) / deseri
 RULE = ('corpus; codec: random values of the pval grammar to depth 4 (atoms, Fraction, Decimal incl. exponents and specials, tuple, frozenset, '
         'list, set, str-keyed and typed dicts incl. reserved keys, objects of three harness classes incl. an unloadable one, resolvable and '
         'unresolvable callables, opaque objects) saved and reloaded directly and through JSON text, compared with the model (a value that is not '
-        'representable must be refused by both); unrepresentable: 40 kinds of values outside the grammar under 0-3 random wrappers (list, tuple, '
+        'representable must be refused by both); unrepresentable: 45 kinds of values outside the grammar under 0-3 random wrappers (list, tuple, '
         'str- / int-keyed dict, dict key, frozenset, harness object, votelib evaluator), ValueError expected; json: mutated '
         'serialisations; classes: every class with to_dict found by introspection, default construction and annotation-driven random '
         'arguments to depth 4, to_dict equality and equality of outcomes / exception classes on a panel of 14 inputs of all vote types; '
@@ -676,6 +676,22 @@ class _Callable:
         return 0
 
 
+def _shadowing_function():
+    """an inner function whose module.name is that of ANOTHER (module-level) function"""
+    def setup():
+        return None
+    return setup
+
+
+def _shadowing_object():
+    """an object of a local class whose module.name is that of ANOTHER (module-level, loadable) class"""
+    class Box:
+        def __init__(self, a=None):
+            self.a = a
+    Box.__qualname__ = 'Box'
+    return _decorate(Box)(a=1)
+
+
 def _unrep_kinds():
     """kind -> (constructor, hashable).  Every value is one that deserialize_value cannot give back: saving must raise ValueError."""
     import functools
@@ -696,6 +712,7 @@ def _unrep_kinds():
         'lambda': (lambda: R['lam'], True), 'closure': (lambda: R['closure'], True), 'partial': (lambda: functools.partial(max, 1), True),
         'bound-method': (lambda: 'abc'.upper, True), 'method': (lambda: Fraction(1, 2).limit_denominator, True),
         'callable-object': (lambda: _Callable(), True), 'quota-constant': (lambda: Q.constant(5), True),
+        'shadowing-function': (_shadowing_function, True), 'shadowing-class': (_shadowing_object, True),
         'complex': (lambda: 1j, True), 'object': (lambda: object(), True), 'module': (lambda: math, True),
         'hidden-class': (lambda: R['hidden'][1](a=1), True), 'liar': (lambda: _Liar(), True), 'extra-param': (lambda: _Extra(), True),
         'required-param': (lambda: _Required(1, 2), True), 'no-class-name': (lambda: _NoName(), True),
@@ -1838,7 +1855,7 @@ def replay_malformed(ctx, case):
 def replay_class(ctx, case):
     """corpus cases for the classes stream: {'stream':'classes','expr': python expression building the object}"""
     import votelib, votelib.vote, votelib.evaluate, votelib.evaluate.core, votelib.evaluate.proportional, votelib.evaluate.openlist
-    import votelib.component.divisor, votelib.component.quota, votelib.candidate, votelib.convert
+    import votelib.component.divisor, votelib.component.quota, votelib.candidate, votelib.convert, votelib.evaluate.cardinal
     obj = eval(case['expr'], dict(votelib=votelib, Fraction=Fraction, Decimal=Decimal))
     ctx.evaluations += 1
     v, tag = check_object(ctx, case['expr'], obj, {}, panel())
